@@ -166,6 +166,12 @@ def exec_stmt(st, p, params, mname):
                 raise Unknown("attribute assignment with effects")
             return [p]
         if isinstance(t, ast.Name):
+            if is_super_call(v):                     # `item = super().pop(index)`
+                if p.sup is not None:
+                    raise Unknown("two super() calls on one path")
+                p.sup = super_target(v, mname)
+                p.env[t.id] = "opaque"
+                return [p]
             if is_call(v, "list") and len(v.args) == 1 and isinstance(v.args[0], ast.Name) and v.args[0].id in params:
                 p.env[t.id] = "listed"
                 return [p]
